@@ -23,8 +23,14 @@ open Galaxy Galaxy.Plugin
     lock, lister then API server) -/
 theorem fact_plugin_shape : Galaxy.Plugin.facts = Facts.good := by decide
 
-/-- the per-pod key mutex is taken by all six entry points (operations on one pod name are atomic moves) -/
-theorem fact_entry_points_hold_pod_lock : Generated.Plugin.allUnderPodLock = true := by decide
+/-- The per-pod key mutex serialises the operations on one pod name (why they are atomic moves of the model): Filter, Bind,
+    unbind, Release, syncPodIP and the resync closure take `lockPod` before their first IPAM use; nothing that concerns
+    the pod's key (IPAM, apiserver, provider, or a helper doing so) runs before that call; and all of them lock the SAME
+    key - `lockPod(name, namespace)` = "<namespace>_<name>", called with (…Name, …Namespace) in that order.  (The harness
+    checks the same thing dynamically: lock-exclusion probe and the two kind=schedule replays.) -/
+theorem fact_entry_points_hold_pod_lock :
+    Generated.Plugin.allUnderPodLock = true ∧ Generated.Plugin.noKeyAccessBeforePodLock = true ∧
+      Generated.Plugin.podLockKeyUniform = true := by decide
 
 /-- ConfigurePool keeps a stored object for the first pool whose pod subnet AND ranges contain its address (pools may share
     a pod subnet), so a reload / restart cannot drop or re-home the record of an address of "the other" pool. -/
